@@ -74,6 +74,7 @@ type c05Opts struct {
 	noSamePerm  bool
 	t0, t1      time.Time // extraction window
 	noMtime     bool      // the route cannot carry times at all
+	scrambled   bool      // the target held an older extraction whose times were set to 1234567.000000089
 }
 
 func fmtTime(sec, nsec int64) string { return fmt.Sprintf("%d.%09d", sec, nsec) }
@@ -183,8 +184,8 @@ func c05Compare(src, dst []*c05Ent, o c05Opts) []c05Diff {
 				cl = "untar/dir-mtime"
 			case inWindow && s.kind() == "link":
 				cl = "untar/symlink-mtime"
-			case inWindow && s.Sec == 0 && s.Nsec == 0:
-				cl = "untar/mtime-epoch"
+			case s.Sec == 0 && s.Nsec == 0 && (inWindow || o.scrambled && d.Sec == 1234567 && d.Nsec == 89):
+				cl = "untar/mtime-epoch" // not set at all: the time of creation, or what the object had before
 			case !nsFits(s.Sec):
 				cl = "tar/mtime-after-2262"
 			}
@@ -346,7 +347,7 @@ func setDigest(d string) {
 }
 
 // routeLib: desync.Tar / desync.UnTar with desync.NewLocalFS, in process.
-func (e *c05Env) routeLib(tree *c05Node, srcDir string, src []*c05Ent, cliBytes []byte, nso, nsp bool) {
+func (e *c05Env) routeLib(tree *c05Node, srcDir string, src []*c05Ent, cliBytes []byte, nso, nsp, overwrite bool) {
 	c := &c05Case{Tree: tree, Route: "lib", Digest: "sha512-256", NoSameOwner: nso, NoSamePerm: nsp, Entries: len(src)}
 	var buf bytes.Buffer
 	err := desync.Tar(context.Background(), &buf, desync.NewLocalFS(srcDir, desync.LocalFSOptions{}))
@@ -376,6 +377,64 @@ func (e *c05Env) routeLib(tree *c05Node, srcDir string, src []*c05Ent, cliBytes 
 	if d := e.snapshotOrFail(c, dst); d != nil {
 		e.report(c, c05Compare(src, d, c05Opts{noSameOwner: nso, noSamePerm: nsp, t0: t0, t1: t1}))
 	}
+	if nso || nsp || !overwrite {
+		return
+	}
+	// unpack once more over the (scrambled) first extraction: same result expected
+	co := *c
+	co.Route = "lib-overwrite"
+	e.r.Count("lib-overwrite|"+treeKey(tree), len(src) > 1)
+	if err := c05Scramble(dst); err != nil {
+		e.r.Note("scramble: %v", err)
+		return
+	}
+	t0 = time.Now()
+	err = desync.UnTar(context.Background(), bytes.NewReader(buf.Bytes()), desync.NewLocalFS(dst, desync.LocalFSOptions{}))
+	t1 = time.Now()
+	if err != nil {
+		co.Detail = err.Error()
+		e.r.Fail("predicate", "untar/error", "desync.UnTar fails when unpacking over an earlier extraction of the same archive: "+err.Error(), &co)
+		return
+	}
+	if d := e.snapshotOrFail(&co, dst); d != nil {
+		e.report(&co, c05Compare(src, d, c05Opts{t0: t0, t1: t1, scrambled: true}))
+	}
+}
+
+// c05Scramble changes content, mode, owner, times and link targets of what is there,
+// without adding or removing names (desync does not promise to remove leftovers).
+func c05Scramble(root string) error {
+	ents, err := c05Snapshot(root, false)
+	if err != nil {
+		return err
+	}
+	for i, e := range ents {
+		p := filepath.Join(root, e.Rel)
+		switch e.kind() {
+		case "file":
+			f, err := os.OpenFile(p, os.O_WRONLY|os.O_APPEND, 0)
+			if err != nil {
+				return err
+			}
+			f.Write(bytes.Repeat([]byte("leftover"), 1+i%700))
+			f.Close()
+			if i%3 == 0 {
+				os.WriteFile(p, []byte("replaced by something longer than before ................................"), 0600)
+			}
+			syscall.Chmod(p, 0)
+		case "link":
+			os.Remove(p)
+			os.Symlink("somewhere/else", p)
+		case "dir":
+			syscall.Chmod(p, 0700)
+		}
+		for k := range e.Xattrs {
+			lsetxattr(p, k, []byte("stale"))
+		}
+		os.Lchown(p, 4242, 4243)
+		lutimens(p, 1234567, 89)
+	}
+	return nil
 }
 
 // routeLibIdx: Tar -> Chunker -> ChunkStream into a local store -> index written and re-read -> UnTarIndex.
